@@ -2,6 +2,7 @@ package c17
 
 import (
 	"bytes"
+	"encoding/hex"
 	"errors"
 	"fmt"
 	"math/bits"
@@ -119,7 +120,42 @@ type facts struct {
 	ccTo     map[string][]ccInfo // CONNECTION_CLOSE frames delivered to an endpoint in genuine datagrams
 	ccFrom   map[string][]ccInfo // CONNECTION_CLOSE frames sent by an endpoint (delivered or not); t = send time
 	resetTo  map[string][]dlv
+
+	foreignResets int // reset-shaped datagrams with a token that is not the receiver's
 }
+
+// tokenInUse returns the stateless reset token associated with the connection ID that endpoint e sent its last 1-RTT
+// packet to before t (read off the wire: NEW_CONNECTION_ID frames and the server's transport parameter).
+func (r *result) tokenInUse(e string, t time.Duration) (tok [16]byte, state int) {
+	var dcid []byte
+	seen := false
+	for _, rec := range r.log {
+		if rec.Forged || rec.Dir != dirFrom(e) || rec.T > t {
+			continue
+		}
+		for _, p := range pktsOf(rec) {
+			if p.Kind == "1rtt" && p.Err == "" {
+				dcid, seen = p.DCID, true
+			}
+		}
+	}
+	if !seen {
+		return tok, tokUnknown
+	}
+	// (a zero-length ID, or the ID a client chose for itself during the handshake, has no token: no datagram can be a
+	// stateless reset for an endpoint that sends to such an ID)
+	tok, ok := r.tokTable[r.peer(r.ep(e)).name][hex.EncodeToString(dcid)]
+	if !ok || len(dcid) == 0 {
+		return tok, tokNone
+	}
+	return tok, tokKnown
+}
+
+const (
+	tokUnknown = iota // no 1-RTT packet of the endpoint was readable: cannot tell
+	tokNone           // the connection ID in use has no token
+	tokKnown
+)
 
 func (r *result) facts() *facts {
 	f := &facts{intactTo: map[string][]dlv{}, anyTo: map[string][]dlv{}, sentBy: map[string][]*sim.Record{}, ccTo: map[string][]ccInfo{}, ccFrom: map[string][]ccInfo{}, resetTo: map[string][]dlv{}}
@@ -153,7 +189,14 @@ func (r *result) facts() *facts {
 			f.intactTo[to] = append(f.intactTo[to], d)
 		}
 		if resetShaped(rec) {
-			f.resetTo[to] = append(f.resetTo[to], d)
+			// a stateless reset FOR this endpoint carries the token of the connection ID it sends to; anything else (e.g. a
+			// stateless peer answering a crafted datagram) is noise that the endpoint must ignore
+			tail, have := r.tap.tail[rec.Seq]
+			if tok, st := r.tokenInUse(to, d.t); st == tokNone || (st == tokKnown && have && tail != tok) {
+				f.foreignResets++
+			} else {
+				f.resetTo[to] = append(f.resetTo[to], d)
+			}
 		}
 		for _, p := range pktsOf(rec) {
 			for _, fr := range p.Frames {
@@ -265,6 +308,70 @@ func (r *result) idleBounds(f *facts, e *endpoint, T, since, period time.Duratio
 		return r.bad("C17/idle/late", "%s gave up at %v; last packet received at %v, first ack-eliciting packet sent after it at %v, period %v: the deadline was %v at the latest", e.name, T, lastRecv, start, period, limit)
 	}
 	return nil
+}
+
+// craftVerdict judges the victim of crafted stateless resets (cause "craft").
+//
+// RFC 9000 10.3.1: "An endpoint detects a potential Stateless Reset using the trailing 16 bytes of the UDP datagram",
+// compared with the tokens "associated with the connection IDs ... for datagrams it has recently sent"; tokens of
+// unused or retired connection IDs MUST NOT be checked; 10.3: a reset is at least 21 bytes long (5 bytes of
+// unpredictable bits + 16-byte token; protocol.MinReceivedStatelessResetSize), endpoints MUST discard packets that are
+// too small to be valid QUIC packets, and other stacks send resets SMALLER than the packet they answer - so every
+// length from 21 up must work, not only the 42 bytes (protocol.MinStatelessResetSize) this implementation sends.
+// Detection applies to datagrams that cannot be associated with a connection (Transport.maybeHandleStatelessReset) and
+// to those that can but cannot be decrypted (Conn.handleShortHeaderPacket).
+func (r *result) craftVerdict(f *facts) *vf.Verdict {
+	if r.c.Cause != "craft" {
+		return nil
+	}
+	e := r.ep(r.c.By)
+	if e.conn == nil {
+		return nil
+	}
+	ended := e.didEnd && !e.neverEnded
+	for i, cr := range r.crafts {
+		if cr.rec < 0 || len(r.log[cr.rec].Dlv) == 0 {
+			continue
+		}
+		d := r.log[cr.rec].Dlv[0]
+		what := fmt.Sprintf("crafted datagram #%d (%d bytes, token %s, routed to the %s, %d-byte local connection IDs, client kind %q)", i, len0(cr), cr.tok, cr.path, r.cidLen(e.name), r.c.ClientKind)
+		switch {
+		case cr.valid && (!ended || e.endAt > d):
+			state := "is still alive"
+			if ended {
+				state = fmt.Sprintf("ended only at %v (%v)", e.endAt, e.endErr)
+			}
+			return r.bad("C17/reset/valid-reset-ignored", "%s: a valid stateless reset was delivered at %v - %s - but the connection %s (%v later); blocked calls at the time: %v", e.name, d, what, state, r.finalNow-d, cr.pending)
+		case cr.subMin && ended && e.endAt == d && errKind(e.endErr) == "reset":
+			// Not judged (coordinator decision): Transport.maybeHandleStatelessReset accepts everything from 17 bytes
+			// (1 + token) up, the connection path enforces 21 (RFC 9000 10.3: shorter datagrams are never valid QUIC
+			// packets). Which datagrams count as a reset is not part of C17's statement; what IS judged is that a
+			// connection ended this way ends as cleanly as after any other reset.
+			r.subMinAccepted = true
+			r.u.Class("obs:below-minimum-reset-accepted:path=" + cr.path)
+		case !cr.valid && !cr.subMin && ended && e.endAt == d && errKind(e.endErr) == "reset":
+			return r.bad("C17/reset/invalid-reset-accepted", "%s: ended with %v at %v, the instant %s was delivered; that datagram does not carry the token of a connection ID in use and must be ignored (RFC 9000 10.3.1)", e.name, e.endErr, d, what)
+		}
+		if (cr.valid || cr.subMin) && ended && e.endAt == d && errKind(e.endErr) == "reset" {
+			// RFC 9000 10.3.1: "the endpoint MUST enter the draining period and not send any further packets on this
+			// connection"
+			for _, cc := range f.ccFrom[e.name] {
+				if cc.t >= e.endAt {
+					return r.bad("C17/reset/close-sent-after-reset", "%s: ended with %v at %v when %s was delivered, and then sent CONNECTION_CLOSE (app=%v code %#x %q, in a %s packet) at %v; after a stateless reset nothing may be sent any more (RFC 9000 10.3.1)", e.name, e.endErr, d, what, cc.f.IsApp, cc.f.ErrorCode, cc.f.Reason, cc.kind, cc.t)
+				}
+			}
+		}
+	}
+	return nil
+}
+
+func len0(cr *craftRec) int { return max(cr.Len, 6) }
+
+func (r *result) cidLen(e string) int {
+	if e == "s" {
+		return r.c.S.CIDLen
+	}
+	return r.c.C.CIDLen
 }
 
 // explainEnd decides whether the way and the time endpoint e's connection ended is justified by what the script
@@ -394,6 +501,13 @@ func (r *result) explainEnd(f *facts, e *endpoint) *vf.Verdict {
 		}
 	case "reset":
 		ok := false
+		if c.Cause == "craft" && actor {
+			for _, cr := range r.crafts {
+				if cr.rec >= 0 && len(r.log[cr.rec].Dlv) > 0 && at(r.log[cr.rec].Dlv[0]) && (cr.valid || (cr.subMin && r.subMinAccepted)) {
+					ok = true
+				}
+			}
+		}
 		for _, d := range f.resetTo[e.name] {
 			if at(d.t) {
 				// whoever sent it must have had no state for the connection any more
@@ -418,7 +532,7 @@ func (r *result) explainEnd(f *facts, e *endpoint) *vf.Verdict {
 	}
 
 	// nothing may end a connection before the scripted cause (keep-alives are answered, the network is healthy)
-	if c.Phase != "handshake" && c.Phase != "edge" && T < r.tCause {
+	if c.Phase != "handshake" && c.Phase != "edge" && T < r.tCause && !r.subMinAccepted {
 		if kind == "idle" && c.aliveGuaranteed() {
 			return r.bad("C17/idle/despite-keepalive", "%s timed out at %v although keep-alives were configured and the network was healthy until %v", e.name, T, r.tCause)
 		}
@@ -508,6 +622,9 @@ func judge(r *result, u *vf.Unit) *vf.Verdict {
 	}
 
 	// ---- each surfaced connection
+	if v := r.craftVerdict(f); v != nil {
+		return v
+	}
 	for _, e := range []*endpoint{r.C, r.S} {
 		if e.conn == nil {
 			continue
